@@ -191,6 +191,22 @@ def pnext (fv : Nat) (autoPage : Bool) : List Bytes → PScanner → PNextOut
 def pscannerScan (s : PScanner) (dests : List Bool) : ScannerScanOut :=
   Scanner.scan { it := s.q.it, cols := s.cols, valid := s.valid } dests
 
+/-- `sc := iter.Scanner(); for sc.Next() { sc.Scan(dests...) }`: the calls of every row up to the first `Next() == false`,
+    the scanner and the unused answers then; `none`: out of fuel, a panic, or a Scan that returned an error -/
+def pdrainS (fv : Nat) (dests : List Bool) : Nat → List Bytes → PScanner → Option (List (List Call) × PScanner × List Bytes)
+  | 0, _, _ => none
+  | n + 1, fut, s =>
+    match pnext fv true fut s with
+    | .ok s' fut' false => some ([], s', fut')
+    | .ok s' fut' true =>
+      (match pscannerScan s' dests with
+       | .ok s'' calls =>
+         (match pdrainS fv dests n fut' { s' with cols := s''.cols, valid := s''.valid } with
+          | some (cs, s3, f) => some (calls :: cs, s3, f)
+          | none => none)
+       | _ => none)
+    | .crash => none
+
 /-! ## the one-row conveniences: Query.Scan, Query.ScanCAS, Query.MapScanCAS (session.go:1337-1394) -/
 
 /-- the error these calls return: nil, ErrNotFound, or `iter.err` -/
